@@ -15,8 +15,12 @@
    longer holds when the source compares otherwise.
 
    These proofs are meant to break when one of the Python functions changes its
-   meaning: the loop lemmas take the translated loop bodies as they are generated
-   and compare them with the steps of the model. *)
+   meaning, and to keep checking when it is only written differently: the loop
+   lemmas take the translated loop bodies as they are generated (matched from the
+   goal) and compare them with the steps of the model; a local name for
+   grammar[ip] or for a container of the cache is a let for that entry / path
+   (reduced away, after the lookup the binding performs), and the two loops over
+   next_letter may be one loop with the `length == 1` test inside. *)
 From Coq Require Import List Arith Bool NArith ZArith Lia.
 From Pcfg Require Import KernelRt OmenSpec OmenLevel OmenKeyspace OmenRt OmenRtProofs OmenLevelProofs
   OmenKeyspaceProofs.
